@@ -406,6 +406,9 @@ func exec(op string) string {
 			if strings.HasPrefix(x, "sched=bseed:") {
 				bs, _ := strconv.ParseUint(strings.Split(strings.TrimPrefix(x, "sched=bseed:"), ",")[0], 10, 64)
 				fresh = runPipeB(label, bs)
+			} else if strings.HasPrefix(x, "sched=cseed:") {
+				cs, _ := strconv.ParseUint(strings.Split(strings.TrimPrefix(x, "sched=cseed:"), ",")[0], 10, 64)
+				fresh = runPipeC(label, cs)
 			} else if strings.HasPrefix(x, "sched=") {
 				cfg, ok := parsePipeCfg(w[1:])
 				if !ok {
@@ -526,10 +529,10 @@ func main() {
 	out.Case(op, "accept", "sessclose/race", true)
 	lap("sessclose")
 	// 4. the connect pipeline: conducted schedules (model-predicted) and scripted-fate scenarios (monitors)
-	nA, nB := 200*mult, 48*mult
+	nA, nB, nC := 200*mult, 48*mult, 80*mult
 	type pres struct{ op, impl, obs string }
-	pr := make([]pres, nA+nB)
-	aseeds := make([]uint64, nA+nB)
+	pr := make([]pres, nA+nB+nC)
+	aseeds := make([]uint64, nA+nB+nC)
 	for i := range aseeds {
 		aseeds[i] = r.U64()
 	}
@@ -549,8 +552,10 @@ func main() {
 				cfg := genPipeCfg(ar)
 				op, impl, obs := runPipe(fmt.Sprintf("a%d", i), cfg, nil, genChooser(ar, cfg), 14+ar.Intn(14))
 				pr[i] = pres{op, impl, obs}
-			} else {
+			} else if i < nA+nB {
 				pr[i] = pres{obs: runPipeB(fmt.Sprintf("b%d", i), aseeds[i]%1000000007)}
+			} else {
+				pr[i] = pres{obs: runPipeC(fmt.Sprintf("c%d", i), aseeds[i]%1000000007)}
 			}
 		}(i)
 	}
@@ -573,8 +578,14 @@ func main() {
 				cls = "pipeobs/A/addHost-inside-Session.Close(KF-C17-3)"
 			}
 			out.Case(pr[i].obs, "accept", cls, true)
-		} else {
+		} else if i < nA+nB {
 			out.Case(pr[i].obs, "accept", "pipeobs/B", true)
+		} else {
+			cls := "pipeobs/C"
+			if !strings.Contains(pr[i].obs, " lateadd=0 ") {
+				cls = "pipeobs/C/addHost-inside-Session.Close(KF-C17-3)"
+			}
+			out.Case(pr[i].obs, "accept", cls, true)
 		}
 	}
 	lap("pipeline")
